@@ -861,7 +861,18 @@ def _res_map_err(ev, args, depth):
     raise Unknown("Result::map_err on %r" % (v,))
 
 
+def _variant_is(names):
+    def f(ev, args, depth):
+        v = deref(args[0])
+        if isinstance(v, Adt):
+            return v.variant in names
+        raise Unknown("variant test on %r" % (v,))
+    return f
+
+
 STD_MODELS = {
+    "std::result::Result::<T, E>::is_ok": _variant_is(("Ok",)),
+    "std::result::Result::<T, E>::is_err": _variant_is(("Err",)),
     "std::option::Option::<&T>::copied": _opt_copied,
     "std::option::Option::<&T>::cloned": _opt_copied,
     "std::option::Option::<&mut T>::copied": _opt_copied,
